@@ -43,6 +43,8 @@ claimed = {
          "only the ParseByteRange clause; FS 206/416/304/HEAD behaviour on files outside", "§0 C24"),
  "C26": ("URI.SetPathBytes→Path equals an independent RFC 3986 remove_dot_segments reference for every byte string of length ≤5 (quick) / ≤7 (thorough), incl. percent-escapes",
          "lengths as stated; Windows separator handling outside", "§0 C26"),
+ "C27": ("URI round trip and agreement with net/url: for 12 prefixes (scheme spellings, userinfo, IPv6 literal, port, inside path/query/fragment/escape) followed by ≤2/≤3 arbitrary bytes, every URI fasthttp accepts re-parses from FullURI() to the same scheme, host, path, query args (identical query string when QueryArgs was not used) and fragment, RequestURI() parsed against the same host gives the same path and query args, and for http/https URIs that the interpreted net/url.Parse also accepts the host equals net/url's host lower-cased and the raw queries are equal",
+         "bounds as stated; net/url is the standard library's own code executed symbolically; longer tails outside", "§0 C27"),
  "C28": ("Args as an ordered multimap: every sequence of 3/4 operations (Add/Set/SetNoValue/Del/AddNoValue) with symbolic keys/values vs a slice model through all observers; parse∘serialise and quote∘unquote round trips",
          "key/value lengths ≤1–2 bytes, ≤2 entries for the round trip", "§0 C28"),
  "C29": ("ResponseHeader and RequestHeader: every sequence of 4 (quick) / 5 (thorough) Add/Set/Del operations over mixed-case ordinary names with symbolic values vs an ordered-multimap model (PeekAll order, Peek, Len)",
@@ -70,7 +72,6 @@ na = {
  "C22": "codec internals (compress/flate, brotli, zstd) are loops over whole buffers that a bit-blasting back end cannot decide, and the abstraction of codecs as uninterpreted functions plus the stackless queue oracle was not built",
  "C23": "not built: fsHandler.handleRequest depends on os/io-fs calls that need a harness file system; not brought up under the interpreter in this build",
  "C25": "not built: the cache-manager inductive step with ghost reader/release counts was not written in this build",
- "C27": "not built: the URI reparse round-trip and the differential against an interpreted net/url were not written in this build",
  "C35": "not built: multipart parsing (mime/multipart) and temp-file interception were not brought up under the interpreter",
  "C36": "the oracle is net/http's own server; differential behaviour of two full HTTP servers is outside bounded symbolic execution of this code",
  "C37": "data races are not representable in a sequentially consistent interpreter; a solver query over SSA cannot decide happens-before",
